@@ -390,6 +390,13 @@ func setFields(msg protoreflect.Message, items []starlark.Tuple) error {
 // setField validates a Starlark field value, converts it to canonical form,
 // and assigns to the field of msg.  If value is None, the field is unset.
 func setField(msg protoreflect.Message, fdesc protoreflect.FieldDescriptor, value starlark.Value) error {
+	if fdesc.IsExtension() {
+		// Clear and Mutable (used below for None and for repeated
+		// fields) need the augmented descriptor too; see the
+		// comment further down.
+		fdesc = dynamicpb.NewExtensionType(fdesc).TypeDescriptor()
+	}
+
 	// None unsets a field.
 	if value == starlark.None {
 		msg.Clear(fdesc)
